@@ -79,6 +79,10 @@ Section PDEF.
     end.
 
   Definition join_texts (l : list json) : string := join "," (map sprint l).
+  (* an object default: its members' texts (members in the object's - sorted - order) *)
+  Definition member_texts (l : list (string * json)) : list (string * string) := map (fun kv => (fst kv, sprint (snd kv))) l.
+  Definition flat_pairs (kvs : list (string * string)) : string := join "," (flat_map (fun kv => [fst kv; snd kv]) kvs).
+  Definition eq_pairs (kvs : list (string * string)) : string := join "," (map (fun kv => (fst kv ++ "=" ++ snd kv)%string) kvs).
 
   (* the request fragment after population (nothing happens for path parameters) *)
   Definition populate (p : pdef) (f : fragment) (d : json) : fragment :=
@@ -90,16 +94,26 @@ Section PDEF.
         let explode := eff_explode p in
         let st := eff_style p in
         let delim := if String.eqb st "spaceDelimited" then " " else if String.eqb st "pipeDelimited" then "|" else "," in
-        let vals := match d with
-                    | JArr l => if explode then map sprint l else [join delim (map sprint l)]
-                    | _ => [sprint d]
-                    end in
-        mkFrag (f_path f) (f_query f ++ [(pd_name p, vals)]) (f_header f) (f_cookie f)
+        let entries := match d with
+                       | JArr l => [(pd_name p, if explode then map sprint l else [join delim (map sprint l)])]
+                       | JObj l =>
+                           (* an object default, member by member (repaired in /repo d5e631d; it was fmt.Sprint of the map) *)
+                           if String.eqb st "deepObject" then
+                             map (fun kv => ((pd_name p ++ "[" ++ fst kv ++ "]")%string, [snd kv])) (member_texts l)
+                           else if explode then map (fun kv => (fst kv, [snd kv])) (member_texts l)
+                           else [(pd_name p, [flat_pairs (member_texts l)])]
+                       | _ => [(pd_name p, [sprint d])]
+                       end in
+        mkFrag (f_path f) (f_query f ++ entries) (f_header f) (f_cookie f)
     | LHeader =>
-        let t := match d with JArr l => join_texts l | _ => sprint d end in
+        let t := match d with
+                 | JArr l => join_texts l
+                 | JObj l => if eff_explode p then eq_pairs (member_texts l) else flat_pairs (member_texts l)
+                 | _ => sprint d
+                 end in
         mkFrag (f_path f) (f_query f) (f_header f ++ [(pd_name p, [t])]) (f_cookie f)
     | LCookie =>
-        let t := match d with JArr l => join_texts l | _ => sprint d end in
+        let t := match d with JArr l => join_texts l | JObj l => flat_pairs (member_texts l) | _ => sprint d end in
         mkFrag (f_path f) (f_query f) (f_header f) (f_cookie f ++ [(pd_name p, t)])
     end.
 
